@@ -19,7 +19,7 @@ def main():
     try:
         if a.replay:
             return mod.replay(a.replay)
-        return mod.main()
+        return (mod.check_main if hasattr(mod, 'check_main') else mod.main)()
     except Exception:
         traceback.print_exc()
         print("INCONCLUSIVE %s: check machinery raised an exception" % a.prop)
